@@ -538,6 +538,8 @@ def inline_helpers(tree: ast.AST, defs: dict, select: typing.Callable[[str, ast.
         name = node.name
         scope = owner
         cls_name = owner.name if isinstance(owner, ast.ClassDef) else None
+        if isinstance(owner, ast.ClassDef) and sum(1 for x in ast.walk(tree) if isinstance(x, FUNC) and x.name == name) == 1:
+            scope = tree  # a uniquely named (new, private) method: subclasses in this module call it through self as well
 
         def is_call(c: ast.AST) -> bool:
             if not isinstance(c, ast.Call) or any(isinstance(a, ast.Starred) for a in c.args) or any(k.arg is None for k in c.keywords):
